@@ -251,7 +251,7 @@ func sessionGen(scripts func(g *gen.Rand) []script, side byte) (func(g *gen.Rand
 		var mb []byte
 		var class, detail string
 		if i == 0 {
-			mb, class, detail = append([]byte{}, a.b...), "valid:"+a.kind, ""
+			mb, class, detail = dup(a.b), "valid:"+a.kind, ""
 		} else {
 			mb, class, detail = mutate(g, a)
 		}
@@ -678,7 +678,7 @@ func init() {
 			if cc.column != "" {
 				ctx = encbase.NewContextWithEncryptionSetting(ctx, mySchema.GetTableSchema("t").GetColumnEncryptionSettings(cc.column))
 			}
-			ctx1, out, err := myDec.OnColumn(ctx, append([]byte{}, val...))
+			ctx1, out, err := myDec.OnColumn(ctx, dup(val))
 			if err != nil {
 				return err
 			}
@@ -689,7 +689,7 @@ func init() {
 			}
 			_, _, err = myEnc.OnColumn(ctx2, out)
 			// also the "decryption failed" path of the encoder
-			_, _, _ = myEnc.OnColumn(ctx1, append([]byte{}, val...))
+			_, _, _ = myEnc.OnColumn(ctx1, dup(val))
 			return err
 		}})
 
